@@ -120,12 +120,11 @@ def check(ctx, R):
     for roles in all_roles(ctx):
         _writers(ctx, R, roles)
         _send_primitive(ctx, R, roles, T)
+        _send_under_lock(ctx, R, roles)
         _construction_sites(ctx, R, roles, T)
     # "followed by exactly the announced number of payload bytes": each buffer handed to the writer reaches the wire whole (same instances as C15)
-    from .c15 import transport_write_sites, writeall_shape
-    for f, n, c in transport_write_sites(ctx):
-        ok, why, info = writeall_shape(ctx, f, n, c)
-        R.check(ok, "RET", "%s|%s" % (f.qualname, norm_stmt(n.ast)), why, why, f.loc(n.ast))
+    from .c15 import write_sites_rules
+    write_sites_rules(ctx, R)
     R.assume("struct.pack/unpack implement the documented format codes; sum() over a bytes-like object is the byte sum")
     R.undecided("library semantics of `struct` (trusted)")
 
@@ -441,6 +440,25 @@ def _send_primitive(ctx, R, roles, T):
     ta = [key(c.args[1]) if len(c.args) > 1 else "?" for (_n, c) in (hdr, pay)]
     R.check(ta[0] == ta[1], "SEND-shape", sp.qualname + "|same-args", "header and payload written with the same transaction settings", None, loc)
     # the write-all helper (if any) passes its buffer parameter through unchanged: checked in C15 (slice from the running offset)
+
+
+def _send_under_lock(ctx, R, roles):
+    """(1b) header and payload of one message reach the wire back to back: every call of the send primitive sits inside a `with` block of the
+    manager's transport lock (a message of another thread cannot land between the two writes)."""
+    from ..locks import LockInfo
+    li = LockInfo(ctx, roles)
+    tl = (roles.io_cls.qualname, "_transport_lock")
+    sp = roles.send_primitive
+    n = 0
+    for cs in ctx.cg.callers_of(sp):
+        f = cs.func
+        g = ctx.cfg(f)
+        for node in g.live_nodes():
+            if any(c is cs.node for c in node_calls(node)):
+                n += 1
+                R.check(tl in li.held(f, node), "LOCK-send", "%s|%s" % (f.qualname, norm_stmt(node.ast)), "the message is sent inside `with self._transport_lock`",
+                        "%s calls the send primitive without holding the transport lock in a `with` block: another thread's message can land between this message's header and its payload" % f.qualname, f.loc(node.ast))
+    R.count("LOCK-send[%s]" % roles.tag, n, 4)
 
 
 def _construction_sites(ctx, R, roles, T):
